@@ -73,6 +73,72 @@ void vf_harness(void)
 NRC_UNWIND = 6
 
 
+def unit_xvalid_unique():
+    """cross-validation shortcut in a unique neighbourhood: the inverse matrix holds the ACTIVE samples only; sample j is read at its rank among them"""
+    from tools.vf import Fn, Unit
+    BOOL = "typedef _Bool bool;\n#define true 1\n#define false 0\n"
+    KS = "src/Estimation/KrigingSystem.cpp"
+    pre = BOOL + """
+#define TEST 1.234e30
+#define NS 3
+int _nvar, _iechOut, _iptrEst, _iptrStd, _iptrVarZ; bool _flagEst, _flagStd, _flagVarZ, _xvalidEstim, _xvalidStdev;
+double g_est, g_std; int g_est_set, g_std_set;
+double __CPROVER_uninterpreted_z(int); double __CPROVER_uninterpreted_inv(int, int); double __CPROVER_uninterpreted_mean0(void); double __CPROVER_uninterpreted_sqrt(double);
+double __CPROVER_uninterpreted_term(double, double, double, double);     /* valest - inv * variance * (z - mean) */
+static bool FFFF(double v) { return v > 1.0e30 || v != v; }
+static double sqrt(double x) { return __CPROVER_uninterpreted_sqrt(x); }
+static int VF_nech(void) { return NS; }
+static bool VF_isActive(int iech) { __CPROVER_assert(0 <= iech && iech < NS, "sample rank"); return W_active[iech]; }
+static bool VF_isIsotopic(int iech) { __CPROVER_assert(0 <= iech && iech < NS, "sample rank"); return W_iso[iech]; }
+static double VF_getZ(int iech, int ivar) { return __CPROVER_uninterpreted_z(iech); }
+static double _getLHSINV(int i, int iv, int j, int jv) { __CPROVER_assert(0 <= i && i < g_nactive && 0 <= j && j < g_nactive, "the inverse matrix is indexed inside the ACTIVE samples"); return __CPROVER_uninterpreted_inv(i, j); }
+static double _getMean(int ivar, bool flagLHS) { return __CPROVER_uninterpreted_mean0(); }
+static void VF_setArray(int iech, int iptr, double v) { if (iptr == _iptrEst) { g_est = v; g_est_set++; } else if (iptr == _iptrStd) { g_std = v; g_std_set++; } }
+"""
+    fa = Fn("KrigingSystem::_getFlagAddress", KS, r"^int KrigingSystem::_getFlagAddress\(int iech0, int ivar0\)\s*$", csig="int _getFlagAddress(int iech0, int ivar0)",
+            rewrites=[(r"\(int\) _dbin->getSampleNumber\(\)", "VF_nech()", None), (r"_dbin->isActive\(", "VF_isActive(", None), (r"_dbin->isIsotopic\(", "VF_isIsotopic(", None)])
+    fx = Fn("KrigingSystem::_estimateCalculXvalidUnique", KS, r"^void KrigingSystem::_estimateCalculXvalidUnique\(int /\*status\*/\)\s*$", csig="void KrigingSystem_estimateCalculXvalidUnique(int status)",
+            rewrites=[# the floating-point update of the estimate is kept symbolic: what is decided is WHICH inverse-matrix cell multiplies WHICH datum
+                      (r"valest -= _getLHSINV\(iiech,0,jjech,0\) \* variance \*\s*\n\s*\(_dbin->getZVariable\( jech, 0\) - _getMean\(0, true\)\);",
+                       "valest = __CPROVER_uninterpreted_term(valest, _getLHSINV(iiech,0,jjech,0), variance, VF_getZ(jech, 0));", "opt"),
+                      (r"_dbin->getSampleNumber\(\)", "VF_nech()", None), (r"_dbin->getZVariable\(\s*", "VF_getZ(", None), (r"_dbin->setArray\(", "VF_setArray(", None),
+                      (r"_dbin->isActive\(", "VF_isActive(", "opt"), (r"_dbin->isIsotopic\(", "VF_isIsotopic(", "opt")])
+    h = """
+#define SAMED(x, y) ((x) == (y) || ((x) != (x) && (y) != (y)))
+void vf_harness(void)
+{
+  vf_havoc_inputs();
+  _nvar = 1; _iechOut = W_target; __CPROVER_assume(0 <= _iechOut && _iechOut < NS);
+  _iptrEst = 10; _iptrStd = 11; _iptrVarZ = 12; _flagEst = 1; _flagStd = 0; _flagVarZ = 0; _xvalidEstim = 0; _xvalidStdev = 0;
+  g_nactive = 0; int pos[NS];
+  for (int k = 0; k < NS; k++) { bool on = (W_active[k] != 0) && (W_iso[k] != 0); pos[k] = on ? g_nactive : -1; if (on) g_nactive++; }
+  g_est_set = 0; g_std_set = 0;
+  KrigingSystem_estimateCalculXvalidUnique(0);
+  int ii = pos[_iechOut];
+  if (ii < 0 || FFFF(__CPROVER_uninterpreted_z(_iechOut))) { __CPROVER_assert(g_est_set == 0, "a masked / undefined target receives nothing"); }
+  else {
+    double variance = 1. / __CPROVER_uninterpreted_inv(ii, ii);
+    double v = __CPROVER_uninterpreted_mean0();
+    for (int j = 0; j < NS; j++) if (pos[j] >= 0 && pos[j] != ii)
+      v = __CPROVER_uninterpreted_term(v, __CPROVER_uninterpreted_inv(ii, pos[j]), variance, __CPROVER_uninterpreted_z(j));
+    __CPROVER_assert(g_est_set == 1 && SAMED(g_est, v), "the estimate sums, over the OTHER active samples j, inverse(rank of target, rank of j among the active samples) x variance x (z_j - mean): masked samples contribute nothing and shift no index");
+  }
+  VF_REACH();
+}
+"""
+    return Unit("C04.xvalidUnique.addresses", [fa, fx], prelude=pre, harness=h, pre_inputs=BOOL + "int g_nactive;\n", unwind=NS_XV + 2,
+                inputs=[("int", "W_target"), ("bool", "W_active", "3"), ("bool", "W_iso", "3")],
+                checks=["--bounds-check"], backends=("cvc5", "minisat"), timeout=600,
+                bounded="3 samples, 1 variable (unwinding assertions)",
+                claim=("KrigingSystem::_estimateCalculXvalidUnique + _getFlagAddress (the leave-one-out shortcut of a unique neighbourhood): the inverse matrix is indexed "
+                       "only inside the active samples, each sample being read at its rank among the active (unmasked, isotopic) samples; masked samples contribute "
+                       "nothing; a masked or undefined target receives nothing"),
+                assumptions=["BOUNDED stand-in", "inverse matrix, data values, mean and sqrt are uninterpreted functions; the obligation is an equality of syntactically identical floating-point terms (cvc5)"],
+                canaries=[{"fn": "KrigingSystem::_getFlagAddress", "rx": r"if \(found\) return rank;", "rp": "if (found) return rank + 1;", "expect": r"assertion"}])
+
+NS_XV = 3
+
+
 def units(tier):
     nmax = 6 if tier == "quick" else 10
     out = []
@@ -81,6 +147,7 @@ def units(tier):
     out.append(_rename(C06.unit_nheap_push(nmax), "C04.ball.nheap_push", "[ball-tree k-NN keeps the k smallest candidates] "))
     out.append(_rename(C06.unit_sort_order(nmax), "C04.ball.sort.order", "[ball-tree k-NN results in increasing distance order] "))
     out.append(unit_optim_cell())
+    out.append(unit_xvalid_unique())
     return out
 
 
